@@ -59,6 +59,34 @@ theorem leading_child_chain (b : String) (k : Nat) (node : Frame) (up : List Fra
         simp [h1, hk]
     · rfl
 
+/-- **`A (>)^k B`** (k ≥ 1): the node is an element named `B` and its k-th ancestor is an element named `A` -/
+theorem child_chain_between (a b : String) (k : Nat) (node : Frame) (up : List Frame) (fuel : Nat) (hk : 1 ≤ k) (hf : k + 3 ≤ fuel) :
+    doMatches (.elem b :: (List.replicate k .child ++ [.elem a])) (node :: up) fuel =
+      (if node.isElem && node.name = b then
+        (match up[k - 1]? with
+         | some anc => if anc.isElem && anc.name = a then .yes else .no
+         | none => .no)
+       else .no) := by
+  cases fuel with
+  | zero => omega
+  | succ fuel =>
+    simp only [doMatches]
+    split
+    · rw [doMatches_children [.elem a] k (node :: up) fuel (by omega) (by simp)]
+      simp only [List.length_cons]
+      obtain ⟨j, rfl⟩ : ∃ j, k = j + 1 := ⟨k - 1, by omega⟩
+      simp only [List.drop_succ_cons, Nat.add_sub_cancel, Nat.add_lt_add_iff_right]
+      by_cases hj : j < up.length
+      · simp only [hj, if_true]
+        have hd : up.drop j = up[j] :: up.drop (j + 1) := (List.drop_eq_getElem_cons hj)
+        rw [hd, List.getElem?_eq_getElem hj]
+        obtain ⟨f, hfe⟩ : ∃ f, fuel - (j + 1) = f + 2 := ⟨fuel - (j + 1) - 2, by omega⟩
+        rw [hfe]
+        simp only [doMatches]
+      · have : up[j]? = none := List.getElem?_eq_none (by omega)
+        simp [hj, this]
+    · rfl
+
 end Css
 
 end H2T
